@@ -45,6 +45,13 @@ Proof.
   - intros H. exists k. split; [assumption|apply N.eqb_refl].
 Qed.
 
+Lemma memN_nodupN k l : memN k (nodupN l) = memN k l.
+Proof.
+  induction l as [|x l IH]; [reflexivity|]. cbn [nodupN]. destruct (memN x l) eqn:E.
+  - rewrite IH, memN_cons. destruct (N.eqb_spec k x) as [->|]; [rewrite E; reflexivity|reflexivity].
+  - rewrite !memN_cons, IH. reflexivity.
+Qed.
+
 Definition hcount (k : N) (l : list frec) : N := fold_right (fun r a => countN k (f_held r) + a) 0 l.
 
 Lemma hcount_cons k r l : hcount k (r :: l) = countN k (f_held r) + hcount k l.
@@ -756,11 +763,11 @@ Lemma do_def_off legacy started c f decl d s :
   do_def all_off legacy started c f decl d s =
   let g := s_next s in
   let pend := negb legacy && negb started in
-  let nr := mk_frec c f g (eff_sr legacy d) decl [] true true pend in
+  let nr := mk_frec c f g (eff_sr legacy d) (nodupN decl) [] true true pend in
   let s1 := set_funcs (set_next s (g + 1)) (s_funcs s ++ [nr]) in
   let s2 := if pend then s1 else commit false s1 nr in
   match find_bound (set_next s (g + 1)) c f with Some r => unbind all_off legacy s2 r | None => s2 end.
-Proof. unfold do_def. cbn [all_off d_no_alias d_alias_abort]. destruct legacy, started; reflexivity. Qed.
+Proof. unfold do_def. cbn [all_off d_no_alias d_alias_abort d_dup_set]. destruct legacy, started; reflexivity. Qed.
 
 Lemma find_bound_in s c f r : find_bound s c f = Some r -> In r (s_funcs s) /\ f_ctx r = c.
 Proof.
@@ -775,7 +782,7 @@ Lemma winv_do_def_imm legacy started c f decl d s L :
   WInv s' /\ NoPend (s_funcs s') /\ AllCtx L (s_funcs s') /\ s_files s' = s_files s /\ s_next s <= s_next s'.
 Proof.
   intros Hmode (HC & HF) HNP HA HcL. rewrite do_def_off. cbn zeta. rewrite Hmode.
-  set (g := s_next s). set (nr := mk_frec c f g (eff_sr legacy d) decl [] true true false).
+  set (g := s_next s). set (nr := mk_frec c f g (eff_sr legacy d) (nodupN decl) [] true true false).
   set (F := s_funcs s). set (s1 := set_funcs (set_next s (g + 1)) (F ++ [nr])).
   assert (HC1 : Core s1) by (apply core_append; [assumption|reflexivity|reflexivity]).
   assert (Hnr1 : In nr (s_funcs s1)) by (cbn; apply in_or_app; right; left; reflexivity).
@@ -816,7 +823,7 @@ Lemma winv_do_def_pend c f decl d s L Lp :
   WInv s' /\ K (s_funcs s') /\ AllCtx L (s_funcs s') /\ PendIn Lp (s_funcs s') /\ s_files s' = s_files s /\ s_next s <= s_next s'.
 Proof.
   intros (HC & HF) HK HA HP HcL HcLp. rewrite do_def_off. cbn zeta. cbn [negb andb].
-  set (g := s_next s). set (nr := mk_frec c f g (eff_sr false d) decl [] true true true).
+  set (g := s_next s). set (nr := mk_frec c f g (eff_sr false d) (nodupN decl) [] true true true).
   set (F := s_funcs s). set (s1 := set_funcs (set_next s (g + 1)) (F ++ [nr])).
   assert (HC1 : Core s1) by (apply core_append; [assumption|reflexivity|reflexivity]).
   assert (HF1 : Flags s1).
@@ -1386,7 +1393,7 @@ Theorem define_effective legacy ops c f decl d :
   let s := run_ops all_off legacy ops init_st in
   loaded s c = true ->
   let s' := run_op all_off legacy s (OExec c [SDef f decl d]) in
-  (exists r, In r (s_funcs s') /\ f_gen r = s_next s /\ f_ctx r = c /\ f_name r = f /\ f_decl r = decl /\ f_bound r = true /\
+  (exists r, In r (s_funcs s') /\ f_gen r = s_next s /\ f_ctx r = c /\ f_name r = f /\ f_decl r = nodupN decl /\ f_bound r = true /\
              forall k, memN k (f_held r) = memN k decl && okf s c k) /\
   (forall k, okf s c k = false -> s_reg s' k = s_reg s k /\ s_owner s' k = s_owner s k /\ s_cnt s' k = s_cnt s k).
 Proof.
@@ -1394,9 +1401,9 @@ Proof.
   destruct (sinv_run_ops legacy ops init_st sinv_init) as ((HC & HF) & HNP & HB & HA). fold s in HC, HF, HNP, HB, HA.
   unfold run_op. rewrite Hl. unfold run_body. cbn [fold_left run_stmt]. rewrite do_def_off. cbn zeta.
   replace (negb legacy && negb true) with false by (destruct legacy; reflexivity).
-  set (g := s_next s). set (nr := mk_frec c f g (eff_sr legacy d) decl [] true true false).
+  set (g := s_next s). set (nr := mk_frec c f g (eff_sr legacy d) (nodupN decl) [] true true false).
   set (s1 := set_funcs (set_next s (g + 1)) (s_funcs s ++ [nr])).
-  set (held := filter (okf s c) decl).
+  set (held := filter (okf s c) (nodupN decl)).
   assert (Hokf : forall k, okf s1 c k = okf s c k) by reflexivity.
   assert (Hheld : filter (okf s1 (f_ctx nr)) (f_decl nr) = held) by reflexivity.
   assert (Hf2 : s_funcs (commit false s1 nr) = upd_rec g (committed held) (s_funcs s ++ [nr])).
@@ -1404,10 +1411,10 @@ Proof.
   assert (Hnr2 : In (committed held nr) (s_funcs (commit false s1 nr))).
   { rewrite Hf2. apply in_upd_rec. exists nr. split; [apply in_or_app; right; left; reflexivity|]. cbn. rewrite N.eqb_refl. reflexivity. }
   assert (Hmem : forall k, memN k held = memN k decl && okf s c k).
-  { intros k. unfold held. destruct (memN k (filter (okf s c) decl)) eqn:E.
+  { intros k. unfold held. rewrite <- (memN_nodupN k decl). destruct (memN k (filter (okf s c) (nodupN decl))) eqn:E.
     - apply memN_In in E. apply filter_In in E. destruct E as (A & B). rewrite B. apply memN_In in A. rewrite A. reflexivity.
-    - destruct (memN k decl) eqn:Ed; [|reflexivity]. destruct (okf s c k) eqn:Eo; [|reflexivity].
-      exfalso. apply memN_In in Ed. assert (In k (filter (okf s c) decl)) by (apply filter_In; auto).
+    - destruct (memN k (nodupN decl)) eqn:Ed; [|reflexivity]. destruct (okf s c k) eqn:Eo; [|reflexivity].
+      exfalso. apply memN_In in Ed. assert (In k (filter (okf s c) (nodupN decl))) by (apply filter_In; auto).
       apply memN_In in H. congruence. }
   assert (Hmaps2 : forall k, okf s c k = false ->
             s_reg (commit false s1 nr) k = s_reg s k /\ s_owner (commit false s1 nr) k = s_owner s k /\ s_cnt (commit false s1 nr) k = s_cnt s k).
